@@ -33,9 +33,9 @@
    (compile_core / compile_core_ja vs lex/exec/generate with set_language) - so a hidden dependence of the
    implementation on process state or on the language also shows as a broken correspondence. *)
 From Coq Require Import ZArith List Bool Permutation String.
-From Sakura.Model Require Import Base Song Token LexCore Reserve Compile Msg.
+From Sakura.Model Require Import Base Song Token LexCore Reserve Compile Msg Script.
 From Sakura.Gen Require Import Consts SysFuncRows WriteSites.
-From Sakura.Proofs Require Import DetP LangP.
+From Sakura.Proofs Require Import DetP LangP LangScriptP.
 Import ListNotations.
 Open Scope Z_scope.
 
@@ -168,6 +168,30 @@ Theorem C08_language_only_in_log : forall (j1 j2 : bool) (src : list Z),
   end.
 Proof. exact language_only_in_log. Qed.
 
+(* the script-layer pipeline (model/Script.v: PRINT, variables, IF / WHILE / FOR with the loop limit, user functions): the same *)
+Theorem C08_language_script_noninterference : forall (j1 j2 : bool) (src : list Z),
+  match compile_script_lang j1 src, compile_script_lang j2 src with
+  | Ok (bytes1, _), Ok (bytes2, _) => bytes1 = bytes2
+  | Panic p, Panic q => p = q
+  | OutOfFuel, OutOfFuel => True
+  | Unsupported u, Unsupported v => u = v
+  | _, _ => False
+  end.
+Proof. exact language_script_noninterference. Qed.
+Theorem C08_language_script_only_in_log : forall (j1 j2 : bool) (src : list Z),
+  match run_script_lang j1 src, run_script_lang j2 src with
+  | Ok st1, Ok st2 =>
+      ss_scopes st1 = ss_scopes st2 /\ ss_funcs st1 = ss_funcs st2 /\ ss_needs st1 = ss_needs st2 /\
+      s_set_ja (s_set_logs (ss_song st1) []) false = s_set_ja (s_set_logs (ss_song st2) []) false /\
+      Forall2 txtR (s_logs (ss_song st1)) (s_logs (ss_song st2)) /\
+      length (s_logs (ss_song st1)) = length (s_logs (ss_song st2))
+  | Panic p, Panic q => p = q
+  | OutOfFuel, OutOfFuel => True
+  | Unsupported u, Unsupported v => u = v
+  | _, _ => False
+  end.
+Proof. exact language_script_only_in_log. Qed.
+
 (* ---- non-vacuity ---- *)
 (* a lookup that finds something, in the table and in its reversal; the hypothesis of distinct names is needed *)
 Example C08_example_lookup :
@@ -218,6 +242,27 @@ Proof.
   vm_compute. repeat split; reflexivity.
 Qed.
 
+(* the script layer: a redefined function (a warning), a type mismatch, PRINT - the same bytes, two wordings, three entries *)
+Example C08_example_language_script :
+  let src := zs "FUNCTION F(){ c } FUNCTION F(){ d } INT A=(1,2) PRINT(A) F()" in
+  exists bytes log_ja log_en,
+    compile_script_lang true src = Ok (bytes, log_ja) /\ compile_script_lang false src = Ok (bytes, log_en) /\
+    compile_script src = Ok (bytes, log_en) /\ log_ja <> log_en /\
+    match run_script_lang true src, run_script_lang false src with
+    | Ok s1, Ok s2 => length (s_logs (ss_song s1)) = 3%nat /\ length (s_logs (ss_song s2)) = 3%nat
+    | _, _ => False
+    end.
+Proof.
+  cbv zeta.
+  destruct (compile_script_lang true (zs "FUNCTION F(){ c } FUNCTION F(){ d } INT A=(1,2) PRINT(A) F()")) as [[b1 l1]| | |] eqn:E1;
+    try (vm_compute in E1; discriminate E1).
+  destruct (compile_script_lang false (zs "FUNCTION F(){ c } FUNCTION F(){ d } INT A=(1,2) PRINT(A) F()")) as [[b2 l2]| | |] eqn:E2;
+    try (vm_compute in E2; discriminate E2).
+  exists b1, l1, l2. vm_compute in E1. vm_compute in E2. injection E1 as <- <-. injection E2 as <- <-.
+  split; [reflexivity|]. split; [reflexivity|]. split; [vm_compute; reflexivity|]. split; [discriminate|].
+  vm_compute. split; reflexivity.
+Qed.
+
 Print Assumptions C08_lookup_order_independent.
 Print Assumptions C08_lookup_spec.
 Print Assumptions C08_table_names_distinct.
@@ -232,3 +277,5 @@ Print Assumptions C08_text_relation.
 Print Assumptions C08_language_lexer.
 Print Assumptions C08_language_noninterference.
 Print Assumptions C08_language_only_in_log.
+Print Assumptions C08_language_script_noninterference.
+Print Assumptions C08_language_script_only_in_log.
